@@ -27,7 +27,7 @@ ASSUMPTIONS = [
     "values are small integers stored as floats so additive sums are exact in any order (bitwise comparison is sound)",
     "coordinates are integers, as the class documents",
 ]
-PROBES = ["observation_sparse", "observation_end", "long_history", "twin_instance_used_in_between", "rejected_malformed_values_all_new", "rejected_malformed_values", "coordinates_not_int64", "caller_mutates_arguments_after_add", "caller_mutates_returned_array", "integer_dtype_batch", "additive_cancels_to_zero", "dup_in_batch", "overlap_partial", "overlap_all", "overlap_unsorted_ge2", "batch_not_sorted", "additive_fresh_coordinate",
+PROBES = ["observation_sparse", "observation_end", "printed_in_between", "non_finite_value", "long_history", "twin_instance_used_in_between", "rejected_malformed_values_all_new", "rejected_malformed_values", "coordinates_not_int64", "caller_mutates_arguments_after_add", "caller_mutates_returned_array", "integer_dtype_batch", "additive_cancels_to_zero", "dup_in_batch", "overlap_partial", "overlap_all", "overlap_unsorted_ge2", "batch_not_sorted", "additive_fresh_coordinate",
           "absent_read_rejected", "empty_batch", "value_dim_gt1", "negative_coordinate", "query_with_duplicates"]
 
 
@@ -98,10 +98,14 @@ def run_history_c46(ch, tr: Trace) -> None:
             tr.probe("integer_dtype_batch")
         vals = []
         for j, c in enumerate(coords):
-            if additive and not as_int and c in model and c not in coords[:j] and c not in coords[j + 1:] and ch.flag(1, 3):
+            if additive and not as_int and c in model and np.all(np.isfinite(model[c])) and c not in coords[:j] and c not in coords[j + 1:] and ch.flag(1, 3):
                 # an additive contribution that cancels the stored value exactly: a dictionary then holds 0.0
                 vals.append(-model[c])
                 tr.probe("additive_cancels_to_zero")
+            elif not as_int and not additive and ch.flag(1, 12):
+                # non-finite values are values too (a tabulated 1/x at x = 0): stored, read back and later overwritten
+                vals.append(np.full(vdim, np.inf if ch.flag() else -np.inf))
+                tr.probe("non_finite_value")
             else:
                 vals.append(next_value(as_int))
         V = np.array(vals).T  # (vdim, n)
@@ -249,7 +253,18 @@ def run_history_c46(ch, tr: Trace) -> None:
         tr.op("twin", "ok", m, changing=False)
         check_all("operations on another SparseNdArray")
 
+    def op_repr():
+        """Printing is the most innocent thing a caller can do to an object."""
+        if not model:
+            return  # (repr of an empty array raises on the pinned tree; not part of the statement)
+        repr(arr)
+        str(arr)
+        tr.probe("printed_in_between")
+        tr.op("repr", "ok", changing=False)
+        check_all("printing the array")
+
     ops = [
+        Op("repr", 1, op_repr),
         Op("twin_noise", 1, op_twin_noise),
         Op("add_malformed", 1, op_add_malformed),
         Op("add", 6, op_add, core=True),
